@@ -125,6 +125,32 @@ func implOracle(q string) string {
 			return "0"
 		}
 		return fmt.Sprint(sign(c))
+	case "S":
+		e := ecoByName(f[1])
+		if e == nil {
+			return "-"
+		}
+		a := e.Parse(unhx(f[2]))
+		if !a.OK {
+			return "-"
+		}
+		str, _ := e.Str(a.Val)
+		return hx(str)
+	case "N":
+		e := ecoByName(f[1])
+		if e == nil {
+			return f[1]
+		}
+		return e.LibName
+	case "XC":
+		ok, isErr, pan := versContains(unhx(f[1]), unhx(f[2]))
+		if pan != "" || isErr {
+			return "e"
+		}
+		if ok {
+			return "t"
+		}
+		return "f"
 	case "RP":
 		e := ecoByName(f[1])
 		if e == nil {
